@@ -58,9 +58,10 @@ def _run_once(case, minimize, negate):
         base = (_disc_f if case["family"] == "disc" else _step_f)(case["fparams"])
         grad = None
     sign = -1 if negate else 1
+    fscale = case.get("fscale", 1)       # a power of two (exact): objectives of the order 1e-13 or 1e12 are objectives like any other
 
     def user_f(x):
-        return sign * base(x)
+        return sign * base(x) * fscale
 
     def proxy(x):
         v = user_f(x)
@@ -151,7 +152,9 @@ def _run_once(case, minimize, negate):
             sol = list(r.solution)
             sol6 = [int(round(v * 1000000)) for v in sol] if all(math.isfinite(v) and abs(v) < 2000 for v in sol) else [10 ** 9] * len(sol)
         group2 = s in ("powell", "bfgs", "lbfgs")
-        o_raw, fs_raw = float(r.objective), float(user_f(sol))
+        o_raw, fs_raw = float(r.objective) / fscale, float(user_f(sol)) / fscale
+        if fscale != 1:
+            evals[:] = [[k, v / fscale] for k, v in evals]
         if not (math.isfinite(o_raw) and math.isfinite(fs_raw)):
             return {"e": "raise", "what": "non_finite_objective"}
         scale = 1000000 if (case["family"] == "quad" and max(abs(o_raw), abs(fs_raw)) < 2000) else 1
@@ -226,4 +229,6 @@ def gen(rng, solver=None):
             case.update(max_iter=rng.choice([1, 3, 6]), n_initial=rng.choice([2, 4]), acquisition=rng.choice(["ei", "ucb"]))
         if s == "nelder_mead":
             case.update(adaptive=rng.random() < 0.3, step=rng.choice([0.05, 0.5, 1.0]))
+    if case["family"] != "quad" and s != "bayesian_opt" and rng.random() < 0.2:
+        case["fscale"] = rng.choice([2.0 ** -43, 2.0 ** -43, 2.0 ** -60, 2.0 ** 40])     # improving steps far below 1e-12, or huge
     return case
